@@ -57,22 +57,23 @@ def strategy_(draw, tier):
     f0 = [x for x in lines[0].split("\t") if not x.startswith("tp:A:")]
     f0[11] = "60"  # at least one primary record, so that stat has something to average
     lines[0] = "\t".join(f0)
-    big = draw(st.integers(0, 19 if tier == "quick" else 9)) == 0
+    big = len(lines) >= 3 and draw(st.integers(0, 9 if tier == "quick" else 5)) == 0
     if big:
-        lines = [l + "\tzq:Z:" + "k" * draw(st.integers(4000, 9000)) for l in lines]
-        # boundaries are where chunked readers go wrong: let one record end exactly on a power-of-two /
-        # BGZF block-size boundary of the uncompressed stream
-        target = draw(st.sampled_from([65536, 65280, 131072, 32768]))
-        pos = 0
-        for k_, l in enumerate(lines):
-            end = pos + len(l) + 1
-            if end > target - 6 and pos + 40 < target:
-                need = target - pos - 1
-                lines[k_] = (l + "\tzr:Z:")[:need] if len(l) + 6 > need else l + "\tzr:Z:" + "j" * (need - len(l) - 6)
-                break
-            if end <= target and k_ == len(lines) - 1:
-                lines[k_] = l + "\tzr:Z:" + "j" * (target - end - 6)
-            pos = end
+        # boundaries are where chunked readers go wrong: record k (not the last one) ends exactly on a
+        # power-of-two / BGZF block-size boundary of the uncompressed stream, more records follow
+        target = draw(st.sampled_from([65536, 65536, 65280, 131072, 32768]))
+        k_ = draw(st.integers(0, len(lines) - 2))
+        budget = target - sum(len(l) + 1 + 6 for l in lines[: k_ + 1])
+        pads = []
+        for _ in range(k_):
+            x = draw(st.integers(0, budget))
+            pads.append(x)
+            budget -= x
+        pads.append(budget)
+        for q in range(k_ + 1):
+            lines[q] = lines[q] + "\tzr:Z:" + "j" * pads[q]
+        for q in range(k_ + 1, len(lines)):
+            lines[q] = lines[q] + "\tzq:Z:" + "k" * draw(st.integers(0, 9000))
     size = sum(len(l) + 1 for l in lines)
     cuts = sorted(set(draw(st.lists(st.integers(1, size - 1), min_size=1, max_size=6))))
     ids = list(g["nodes"])
